@@ -11,6 +11,7 @@ POLV = ["B+p1", "B+p2", "B+p3", "M+p1", "M+p2", "M+p3", "BC+p3", "MC+p3"]
 FAMILY_VARIANTS = {
     "events_hier": ["B", "M"],          # base-class / Kleene triggers: run-time-speed policies with flat_fold only (C18 quantifier)
     "serial_nested": ["B", "BC"],       # Boost.Serialization is offered by back / back11 only
+    "defer_cond": ["M", "MA", "MC"],    # deferral at any depth / in any region, conditional deferral: backmp11 only (C05 quantifier)
     "nest2_mixed": ALLV + POLV,
     "order_rows": ALLV + POLV,
     "conflict_ortho": ALLV + POLV,
@@ -92,7 +93,8 @@ PROPS = {
     },
     "C05": {
         "jobs": jobs(["defer_basic", "defer_action"], ["defer", "plain"], 1500, 60000, variants=ALLV)
-                + jobs(["defer_action"], ["defer_strict"], 300, 3000, variants=["B", "BC", "M", "MA", "MC"]),
+                + jobs(["defer_action"], ["defer_strict"], 300, 3000, variants=["B", "BC", "M", "MA", "MC"])
+                + jobs(["defer_cond"], ["defer", "plain", "queue"], 1500, 60000),
         "nontrivial": ["deferred"],
         "rule": "event sequences over machines with deferring states / Defer actions, public defer_event, posts with the defer API; "
                 "non-trivial = a deferred occurrence was observed pending at a quiescent point; distinct = full-trace hash",
